@@ -36,7 +36,7 @@ var (
 	c16Errnos      = []string{"EIO", "ENOSPC", "EACCES", "EDQUOT"}
 	c16Global      = []string{"write", "pwrite64", "close", "fsync", "rename", "renameat", "renameat2", "fchmod", "fchmodat", "chmod", "ftruncate", "unlinkat", "fstat", "newfstatat", "fchown", "linkat"}
 	c16PathSys     = []string{"openat", "read"}
-	c16Inputs      = []string{"unparseable-source", "unparseable-result", "rewrite-error", "missing-path", "missing-patch", "malformed-patch", "missing-list-entry", "unreadable-source", "unreadable-patch", "directory-named-go"}
+	c16Inputs      = []string{"unparseable-source", "unparseable-result", "rewrite-error", "missing-path", "missing-patch", "malformed-patch", "missing-list-entry", "unreadable-source", "unreadable-patch", "directory-named-go", "rewrite-error-plus-other-change"}
 	c16ErrnoText   = map[string]string{"EIO": "input/output error", "ENOSPC": "no space left on device", "EACCES": "permission denied", "EDQUOT": "disk quota exceeded", "EFBIG": "file too large"}
 	c16FaultsCache = map[string][]fault{}
 )
@@ -134,6 +134,12 @@ func runC16(ctx *core.Ctx, idx int) *core.Result {
 		files = append(files, fi{fmt.Sprintf("f%d.go", f), src})
 	}
 	tgt := ft.Target % n
+	// pristine inputs: the fault-free baseline is computed from these
+	pristinePatch := patch
+	pristine := map[string]string{}
+	for _, f := range files {
+		pristine[f.name] = f.src
+	}
 	extraArgs := []string{}
 	patchArgs := []string{"-p", "../p.patch"}
 	expectFailFile := "" // file that must be reported
@@ -150,6 +156,11 @@ func runC16(ctx *core.Ctx, idx int) *core.Result {
 		case "rewrite-error":
 			patch = "@@\nvar x, y expression\n@@\n-bump(x)\n+bump(x, y)\n"
 			expectFailFile, causeWords = files[0].name, []string{"metavariable"}
+		case "rewrite-error-plus-other-change":
+			// one change fails on the target file only, another change of the same patch succeeds on it
+			patch = "@@\nvar x expression\n@@\n-bump(x)\n+bump(x + 1)\n\n@@\nvar n, y expression\n@@\n-var _ = tgtPair(n, y)\n+var n = y\n"
+			files[tgt].src += "\nvar _ = tgtPair(call(), 1)\n\nvar _ = tgtPair(other(), 2)\n"
+			expectFailFile, causeWords = files[tgt].name, []string{"cannot", "could not"}
 		case "missing-path":
 			extraArgs = append(extraArgs, "nonexistent_"+fmt.Sprint(tgt)+".go")
 			expectFailFile, causeWords = "nonexistent_"+fmt.Sprint(tgt)+".go", []string{"no such file"}
@@ -200,15 +211,36 @@ func runC16(ctx *core.Ctx, idx int) *core.Result {
 		os.WriteFile(filepath.Join(d, "list.txt"), []byte("../p.patch\n../gone.patch\n"), 0o644)
 	}
 
-	// baseline: fault-free run gives the fully patched bytes
+	// baseline: a fault-free run on the pristine inputs gives the fully patched bytes
 	bd := setup("base")
 	fixList(bd)
+	os.WriteFile(filepath.Join(bd, "p.patch"), []byte(pristinePatch), 0o644)
+	for name, src := range pristine {
+		os.WriteFile(filepath.Join(bd, "tree", name), []byte(src), 0o644)
+	}
 	baseArgs := append([]string{"-p", "../p.patch"}, names...)
 	bres := ctx.RunCLI(core.CLIOpts{Dir: filepath.Join(bd, "tree"), Args: baseArgs, Env: []string{"GOMAXPROCS=1"}})
 	patched := map[string]string{}
 	for _, f := range files {
 		b, _ := os.ReadFile(filepath.Join(bd, "tree", f.name))
 		patched[f.name] = string(b)
+		if f.src != pristine[f.name] {
+			patched[f.name] = f.src // an input-corrupted file must be left exactly as it is
+		}
+	}
+	if patch != pristinePatch {
+		for _, f := range files {
+			patched[f.name] = f.src // the whole patch is faulty: nothing may change
+		}
+		if ft.Input == "rewrite-error-plus-other-change" {
+			// only the target fails; the others are patched by the first change
+			for _, f := range files {
+				if f.name != files[tgt].name {
+					b, _ := os.ReadFile(filepath.Join(bd, "tree", f.name))
+					patched[f.name] = string(b)
+				}
+			}
+		}
 	}
 	_ = bres
 
@@ -394,7 +426,7 @@ func runC16(ctx *core.Ctx, idx int) *core.Result {
 		}
 	}
 	// a per-file failure must not change the result of the other files
-	if ft.Kind == "input" && (ft.Input == "unparseable-source" || ft.Input == "unparseable-result") {
+	if ft.Kind == "input" && (ft.Input == "unparseable-source" || ft.Input == "unparseable-result" || ft.Input == "rewrite-error-plus-other-change") {
 		for _, f := range files {
 			if f.name == files[tgt].name {
 				continue
